@@ -184,6 +184,7 @@ def run_comparison(props=None):
             s.wr(r, f, fresh('res_' + f))
         cr = s.rd(r, 'comparator_result'); s.assume(z3.And(Val.is_ref(cr), Val.addr(cr) < BASE, Val.addr(cr) >= 0, TYP(Val.addr(cr)) == K('ComparatorResult')))
         es = s.rd(cr, 'equality_status'); s.assume(z3.Or(*[es == o for o in mem.values()]))
+        msg_ = s.rd(cr, 'message'); s.assume(z3.Or(msg_ == NONE, Val.is_s(msg_)))          # documented type of ComparatorResult.message: basestring (or None)
         pbv = s.rd(r, 'playback'); s.assume(z3.Or(pbv == NONE, z3.And(Val.is_ref(pbv), Val.addr(pbv) < BASE, Val.addr(pbv) >= 0, TYP(Val.addr(pbv)) == K('Playback'))))
         s.trace.append(dict(kind='Callee', name='play_and_compare', arg=args[1], outcome=('ret', r)))
         e = s2.sym_exc(label='exc_worker'); s2.trace.append(dict(kind='Callee', name='play_and_compare', arg=args[1], outcome=('raise', e)))
